@@ -115,7 +115,7 @@ PROPS = {
         'design_ref': 'DESIGN.md section 5 C05',
     },
     'C03': {
-        'modules': FS_MODULES + ['contracts.connection'],
+        'modules': FS_MODULES + ['contracts.demostorage', 'contracts.conflict', 'contracts.connection'],
         'lemmas': [],
         'level': 'proof',
         'bounded': [
@@ -255,7 +255,7 @@ PROPS['C09'] = {
 
 PROPS['C13'] = {
     'modules': ['contracts.fs_format', 'contracts.fs_load', 'contracts.blobmodel', 'contracts.fs_write',
-                'contracts.blobspecs'],
+                'contracts.blobspecs', 'contracts.mvcc'],
     'lemmas': [],
     'level': 'proof',
     'bounded': [
@@ -348,7 +348,7 @@ PROPS['C10'] = {
 }
 
 PROPS['C14'] = {
-    'modules': ['contracts.fs_format', 'contracts.serialize_refs', 'contracts.conflict'],
+    'modules': ['contracts.fs_format', 'contracts.serialize_refs', 'contracts.conflict', 'contracts.connection'],
     'lemmas': [],
     'level': 'other',
     'explanation': 'proved: the classification loops of referencesf/get_refs over every reference spelling of '
